@@ -483,6 +483,10 @@ func WriteComment(w *formatting.IndentedWriter, comment string) {
 
 func WriteDocstring(w *formatting.IndentedWriter, comment string) {
 	comment = strings.TrimSpace(comment)
+	// the text goes into a regular (non-raw) string literal: keep Python from
+	// interpreting backslashes (`C:\users` is an invalid \u escape) or an embedded delimiter
+	comment = strings.ReplaceAll(comment, "\\", "\\\\")
+	comment = strings.ReplaceAll(comment, "\"\"\"", "\\\"\\\"\\\"")
 	if strings.HasPrefix(comment, "\"") {
 		comment = " " + comment
 	}
